@@ -1,6 +1,7 @@
 import Cjet.Startup
 import Cjet.Lemmas.Startup
 import Cjet.Lemmas.StartupErr
+import Cjet.Startup.Ladders
 /-!
 Property theorems of the `Startup` component (C07 / C15): start-up and shut-down paths of
 /repo/src/linux/linux_io.c, for BOTH configurations (`localOnly`), with / without a user name, foreground
@@ -359,6 +360,15 @@ theorem error_reported (c : Cfg) (script : List Ans) :
         · simp [IoEnd.ret, StackEnd.ret, JetEnd.ret, hs.1]
         · obtain ⟨acc, k1, mid, _, _, ht, _⟩ := hord rfl
           simp [IoEnd.ret, StackEnd.ret, JetEnd.ret, hs.1, ht]
+
+/-- C15 view: run_io_only_local and run_io_all_interfaces transcribed as `Cjet.Unwind` ladders with the goto
+    labels of the C text pass the single-failure audit of that interpreter: on the success path and for every
+    failing step no descriptor is acquired twice or released when not held, no registration is removed that
+    does not exist, every label that is jumped to exists, and at return nothing is held or registered. -/
+theorem goto_ladders_audit :
+    Cjet.Unwind.audit Cjet.Startup.Ladders.ladderOnlyLocal = true ∧
+    Cjet.Unwind.audit Cjet.Startup.Ladders.ladderAllInterfaces = true := by
+  decide
 
 -- the monitor counts: a failing bind of the second listener; two of three addresses failing does not count
 example : hardFailures (run ⟨false, false, true, .asIs⟩ ((List.replicate 16 Ans.ok) ++ [.fail])).2.tr = 1 := by
